@@ -463,3 +463,58 @@ def s_plan(policies, seed=0, max_n=3, with_cond=True, clusters=("1x1", "2w"),
 
 def count(gen):
     return sum(1 for _ in gen)
+
+
+# ------------------------------------------------------------------ Clockwork worlds
+def s_cw(seed=0, k_max=3, full=False):
+    """Clockwork arrival histories: k requests of <= 2 models, every release vector in
+    {0..3}^k (non-decreasing per model is *not* assumed), every deadline class vector,
+    1-2 workers, loading variants, both goals."""
+    classes = {"hopeless": 1, "tight": 3, "loose": 10}
+
+    def model(name):
+        return {"name": name,
+                "loading_strategies": [{"batch_size": 1, "runtime": 1,
+                                        "resource_requirements": {"RAM:any": 1}}],
+                "execution_strategies": [
+                    {"batch_size": 1, "runtime": 2,
+                     "resource_requirements": {"GPU:any": 1}},
+                    {"batch_size": 2, "runtime": 3,
+                     "resource_requirements": {"GPU:any": 1}}]}
+
+    clusters = {
+        "1w": cluster([dict(GPU=1, RAM=2)]),
+        "2w": cluster([dict(GPU=1, RAM=2), dict(GPU=1, RAM=2)]),
+    }
+    loadings = ("preload", "run_load", "none") if full else ("preload", "run_load")
+    for k in range(1, k_max + 1):
+        rel_vectors = list(itertools.product((0, 1, 2, 3), repeat=k)) if (full or k < 3) \
+            else [r for r in itertools.product((0, 1, 2), repeat=k)]
+        for rels in rel_vectors:
+            if list(rels) != sorted(rels):
+                continue  # request i arrives no later than request i+1 (names are free)
+            for cls in itertools.product(sorted(classes), repeat=k):
+                for models in ([("M1",) * k] + ([("M1",) * (k - 1) + ("M2",)]
+                                               if k >= 2 else [])):
+                    graphs = []
+                    for i in range(k):
+                        graphs.append({
+                            "name": f"Q{i}",
+                            "graph": [{"name": "R", "work_profile": models[i],
+                                       "slo": classes[cls[i]]}],
+                            "release_policy": "fixed", "period": 1, "invocations": 1,
+                            "start": rels[i], "deadline_variance": [0, 0]})
+                    wl = {"profiles": [model("M1"), model("M2")], "graphs": graphs}
+                    for ck, cl in clusters.items():
+                        if ck == "2w" and k == 1:
+                            continue
+                        for ld in loadings:
+                            for goal in ("clockwork", "least_slack"):
+                                fl = {"scheduler": "Clockwork", "clockwork_goal": goal,
+                                      "unique_work_profiles": True}
+                                if ld == "run_load":
+                                    fl["scheduler_run_load"] = True
+                                yield mk_world(
+                                    wl, cl, fl, seed, tape=[], preload=(ld == "preload"),
+                                    tag=f"S-cw k={k} rel={rels} cls={cls} m={models} "
+                                        f"c={ck} load={ld} goal={goal}")
